@@ -294,6 +294,9 @@ func (E *Engine) applyContract(m *Machine, f *Frame, x *ssa.Call, fn *ssa.Functi
 		if E.knownFailing(name + ":post:" + en.Label) {
 			continue // a recorded finding: callers must not rely on it
 		}
+		if !c.Trusted && len(en.Props) == 0 {
+			continue // not claimed under any property, hence never checked: callers must not rely on it
+		}
 		m.AssumeT(pev.EvalBool(en.Expr, en.Src))
 	}
 	if c.Trusted {
